@@ -193,15 +193,17 @@ pub fn run(rep: &mut Report) {
         let job = &jobs[ji];
         let p = progs[job.prog];
         let mut st = Stats::new();
-        let mut handle = |input: Input| {
+        let mut handle = |input: Input, show: bool| {
             let j = judge(p, &input);
             st.eval();
             if input.nonempty() && j.expected.iter().any(|g| !g.is_empty()) {
                 st.nontrivial(&(p.id, format!("{input:?}")));
             }
             st.outcome(&format!("{:?}", j.actual));
-            st.sample(|| json!({"program": p.id, "ops": p.ops, "input": input.to_json(),
-                                 "output_per_tick": format!("{:?}", j.actual)}));
+            if show {
+                st.sample(|| json!({"program": p.id, "ops": p.ops, "input": input.to_json(),
+                                     "output_per_tick": format!("{:?}", j.actual)}));
+            }
             if let Some((t, _)) = &j.mismatch {
                 st.violations_total += 1;
                 let pre = input.truncate(t + 1);
@@ -221,14 +223,14 @@ pub fn run(rep: &mut Report) {
                 let (nb, mi) = bounds.one[job.space];
                 let bs = batches(&ALPHA, mi);
                 let total = bs.len().pow((nb - 1) as u32);
-                for c in 0..total {
+                for c0 in 0..total {
                     let mut seq = vec![bs[job.first].clone()];
-                    let mut c = c;
+                    let mut c = c0;
                     for _ in 1..nb {
                         seq.push(bs[c % bs.len()].clone());
                         c /= bs.len();
                     }
-                    handle(Input::One(seq));
+                    handle(Input::One(seq), c0 + 1 == total && job.first + 1 == bs.len());
                 }
             }
             Runner::A2(_) => {
@@ -240,14 +242,14 @@ pub fn run(rep: &mut Report) {
                     .flat_map(|a| bb.iter().map(move |b| (a.clone(), b.clone())))
                     .collect();
                 let total = pairs.len().pow((nt - 1) as u32);
-                for c in 0..total {
+                for c0 in 0..total {
                     let mut seq = vec![pairs[job.first].clone()];
-                    let mut c = c;
+                    let mut c = c0;
                     for _ in 1..nt {
                         seq.push(pairs[c % pairs.len()].clone());
                         c /= pairs.len();
                     }
-                    handle(Input::Two(seq));
+                    handle(Input::Two(seq), c0 + 1 == total && job.first + 1 == pairs.len());
                 }
             }
         }
